@@ -209,13 +209,16 @@ class Judge:
 
 
 def crash_signature(text):
-    """Stable one-line signature of a compiler failure: first error/panic line (+ top Dora frames of a fatal error)."""
+    """Stable one-line signature of a compiler failure: panic site + message, or first error line (+ top Dora frames of a
+    fatal error in the optimizing compiler, which is a Dora program)."""
     lines = [l for l in text.splitlines() if l.strip()]
-    first = next((l.strip() for l in lines if "panicked at" in l or l.startswith(("fatal error:", "error:"))), lines[-1].strip() if lines else "")
-    m = re.search(r"panicked at ([^\s:]+:\d+)", first)
-    if m:
-        nxt = lines[lines.index(next(l for l in lines if "panicked at" in l)) + 1].strip() if any("panicked at" in l for l in lines[:-1]) else ""
-        return "panic@%s:%s" % (re.sub(r"^/rustc/[0-9a-f]+/library/", "rustlib/", m.group(1).split("/repo/")[-1]), re.sub(r"\d+", "N", nxt)[:60])
+    for i, l in enumerate(lines):
+        m = re.match(r"^thread .*panicked at ([^\s:]+:\d+)", l)
+        if m:
+            nxt = lines[i + 1].strip() if i + 1 < len(lines) else ""
+            site = re.sub(r"^/rustc/[0-9a-f]+/library/", "rustlib/", m.group(1).split("/repo/")[-1])
+            return "panic@%s:%s" % (site, re.sub(r"\d+", "N", nxt)[:60])
+    first = next((l.strip() for l in lines if l.startswith(("fatal error:", "error:"))), lines[-1].strip() if lines else "")
     frames = []
     if first.startswith("fatal error"):
         for l in lines:
@@ -249,7 +252,7 @@ def both_fail(ctx, wl, name, errors):
     if any(r.timeout for r in errors.values()):
         ctx.inconc("%s %s: compile watchdog" % (wl, name))
         return "timeout"
-    if any("panicked at" in t or "fatal error" in t for t in texts) or not all(re.search(r"(?m)^error", t) for t in texts):
+    if any(re.search(r"(?m)^(thread .*panicked at|fatal error)", t) for t in texts) or not all(re.search(r"(?m)^error", t) for t in texts):
         sigs = sorted({crash_signature(t) for t in texts})
         ctx.count("compiler_crashes_with_both_generators:" + wl)
         lst = ctx.extra.setdefault("compiler_crashes_with_both_generators", [])
